@@ -624,13 +624,18 @@ def rule_kauers(repo: Repo) -> List[Ob]:
             ok = no_break and rets_ok and inner_ok
             msg = (f"the loop is left only when the exact membership test holds for `{tested}`, which is what is returned (or [] when the bound excludes all vectors)"
                    if ok else "the returned matrix is not the one that passed _all_in_lattice (break / different variable / early non-empty return)")
-    obs.append(Ob("E-kauers", f"{rp}::{f.qualname}::exit", rp, line, f.qualname, ok, msg))
+    if not ok and not (loops and any(isinstance(x, ast.Break) for x in ast.walk(loops[0]))):
+        obs.append(inconclusive("E-kauers", f"{rp}::{f.qualname}::exit", rp, line, f.qualname, "exit of the refinement loop not recognised"))
+    else:
+        obs.append(Ob("E-kauers", f"{rp}::{f.qualname}::exit", rp, line, f.qualname, ok, msg))
     g = repo.function(rp, "ExponentLattice._all_in_lattice")
     c = cfg_of(g.node)
     exact = [x for x in walk_no_nested(g.node) if isinstance(x, ast.Call) and call_name(x) == "algebraic_number_equals_const"]
     true_rets = [r for r in walk_no_nested(g.node) if isinstance(r, ast.Return) and isinstance(r.value, ast.Constant) and r.value.value is True]
-    ok2 = False
-    msg2 = "no exact test / no `return True`"
+    ok2 = None
+    msg2 = "arrangement of the exact membership test not recognised"
+    if not exact and not any("algebraic_number_equals_const" in src(h.node) for h in helper_bodies(repo, g, g.node)):
+        ok2, msg2 = False, "the membership test no longer uses the exact comparison algebraic_number_equals_const: a numerically small but non-zero deviation is accepted as a relation"
     if exact and true_rets:
         en = node_for(c, exact[0])
         # every path to `return True` passes the head of the loop that contains the exact test, and a failing exact test returns False
@@ -646,16 +651,23 @@ def rule_kauers(repo: Repo) -> List[Ob]:
                 if first is not None and isinstance(first.ast.value, ast.Constant) and first.ast.value.value is False:
                     fails = True
         const_one = len(exact[0].args) == 2 and isinstance(exact[0].args[1], ast.Constant) and exact[0].args[1].value == 1
-        ok2 = dom and fails and all_rows and const_one
+        ok2 = True if (dom and fails and all_rows and const_one) else None
         msg2 = "True is returned only after every row passed the exact test prod(b_i**e_i) == 1" if ok2 else \
-            "the exact membership test does not guard `return True` for every row"
-    obs.append(Ob("E-kauers", f"{rp}::{g.qualname}::exact", rp, g.node.lineno, g.qualname, ok2, msg2))
+            "arrangement of the exact membership test not recognised"
+    if ok2 is None:
+        obs.append(inconclusive("E-kauers", f"{rp}::{g.qualname}::exact", rp, g.node.lineno, g.qualname, msg2))
+    else:
+        obs.append(Ob("E-kauers", f"{rp}::{g.qualname}::exact", rp, g.node.lineno, g.qualname, ok2, msg2))
     # the exact test itself: minimal polynomial x - c
     h = repo.function("utils/algebraic_numbers.py", "algebraic_number_equals_const")
     s = src(h.node)
     ok3 = "minpoly" in s and "degree() == 1" in s and "eval(c) == 0" in s
-    obs.append(Ob("E-kauers", f"utils/algebraic_numbers.py::{h.qualname}::minpoly", h.relpath, h.node.lineno, h.qualname, ok3,
-                  "equality with a constant is decided on the minimal polynomial (exact)" if ok3 else "equality test no longer uses the minimal polynomial"))
+    if ok3:
+        obs.append(Ob("E-kauers", f"utils/algebraic_numbers.py::{h.qualname}::minpoly", h.relpath, h.node.lineno, h.qualname, True, "equality with a constant is decided on the minimal polynomial (exact)"))
+    elif "minpoly" not in s:
+        obs.append(Ob("E-kauers", f"utils/algebraic_numbers.py::{h.qualname}::minpoly", h.relpath, h.node.lineno, h.qualname, False, "equality test no longer uses the minimal polynomial"))
+    else:
+        obs.append(inconclusive("E-kauers", f"utils/algebraic_numbers.py::{h.qualname}::minpoly", h.relpath, h.node.lineno, h.qualname, "shape of the minimal-polynomial test not recognised"))
     return obs
 
 
